@@ -291,13 +291,15 @@ fn one_case(ctx: &Ctx, i: usize, rep: &mut Report) {
     let fat32 = i % 3 == 1;
     let mut g = Geom::random(&mut rng, Some(fat32), if fat32 { 2 } else { 4 });
     if !fat32 {
-        g.root_entries = *rng.pick(&[16u32, 32, 112, 512]);
+        // (also counts that do not fill the last root block: the library must round the region UP;
+        // the formatter zero-fills the rest of that block, so both readers agree on the listing)
+        g.root_entries = *rng.pick(&[16u32, 32, 112, 512, 40, 24, 100, 200]);
     }
     let spc = g.spc as usize;
     let per = spc * 16;
     let mut f = Fmt::new(g, Rng::new(rng.next_u64()));
     // the root itself gets a mix too
-    let root_target = if f.g.fat32 { *rng.pick(&[per - 1, per, per + 1, 3, 2 * per + 1]) } else { (f.g.root_entries as usize).min(*rng.pick(&[5usize, 15, 16, 31, 40, 111, 200])) };
+    let root_target = if f.g.fat32 { *rng.pick(&[per - 1, per, per + 1, 3, 2 * per + 1]) } else { (f.g.root_entries as usize).min(*rng.pick(&[5usize, 15, 16, 31, 40, 111, 200, 512])) };
     gen_dir(&mut f, 0, "", &mut rng, root_target.saturating_sub(6), false);
     let mut cases: Vec<DirCase> = Vec::new();
     let ndirs = 1 + rng.usize_below(3);
